@@ -101,6 +101,7 @@ theorem getHandler_coherent (r : Reg) (ct : ClassTable) (cls : String)
     | getitem => exact ⟨by simp [h2 (by simp)], rfl, hc⟩
     | seqItem => exact ⟨by simp [h2 (by simp)], rfl, hc⟩
     | table a => exact ⟨by simp [h2 (by simp)], rfl, hc⟩
+    | glomTable a => exact ⟨by simp [h2 (by simp)], rfl, hc⟩
     | raises c => exact ⟨by simp [h2 (by simp)], rfl, hc⟩
     | named n => exact ⟨by simp [h2 (by simp)], rfl, hc⟩
   | none =>
